@@ -158,7 +158,7 @@ class Axis(GetSetDelAttrMixin, AbstractAxis):
             return values # if collapsed to scalar, just return it
         if type(item) is slice:
             values = values.copy() # not a view: relabelling the sliced axis in place must not relabel this one (and leave its cached ordering stale)
-        newaxis = Axis(values, self.name, tol=self.tol, **self.attrs)
+        newaxis = self._new(values)
         # slices keep the ordering
         if self._monotonic and type(item) is slice:
             newaxis._monotonic = self._monotonic
@@ -204,7 +204,13 @@ class Axis(GetSetDelAttrMixin, AbstractAxis):
         subaxis : Axis instance
         """
         values = self._values.take(indices, mode=mode)
-        return Axis(values, self.name, tol=self.tol, **self.attrs)
+        return self._new(values)
+
+    def _new(self, values):
+        " axis with other values and the same name, tol and metadata "
+        ax = Axis(values, self.name, tol=self.tol)
+        ax.attrs.update(self.attrs) # not via __init__: a metadata key may be named like one of its parameters (name, dtype, ...)
+        return ax
 
 
     def set(self, values=None, name=None, inplace=True, **kwargs):
